@@ -85,7 +85,7 @@ reg('c15_leapers_exact', 'C15', QT, 300, 4, 'all 64 squares x both colours', 'c1
 reg('c15_between_exact', 'C15', QT, 300, 4, 'all 64 x 64 square pairs', 'c15::between_exact', unwind=9)
 reg('c15_bishop_exact', 'C15', QT, 900, 8, 'all 64 squares x all 2^64 occupancies (real table, real pointer arithmetic)',
     'c15::bishop_exact', unwind=9)
-reg('c15_rook_exact', 'C15', T, 5400, 16, 'all 64 squares x all 2^64 occupancies (real table, real pointer arithmetic)',
+reg('c15_rook_exact', 'C15', T, 10800, 16, 'all 64 squares x all 2^64 occupancies (real table, real pointer arithmetic)',
     'c15::rook_exact', unwind=9)
 
 # ---------------------------------------------------------------- C16
